@@ -238,10 +238,18 @@ def _check_export(st, text, params, groups, region, pkey, ref, pv, cfg, options)
             st.ob("inconclusive", key=okey, note="z3 unknown")
         # the network is normalised for every parameter value
         v2, _ = pv.frac_equal((p1 + p0, None), (z3.RealVal(1), None))
+        if v2 == "refuted" and replay_not_normalised(text, q, symsem.model_values(_, params), options) is None:
+            v2 = "inconclusive"
         st.ob("proved" if v2 == "proved" else "inconclusive" if v2 != "refuted" else "refuted", key=okey + ":norm")
         if v2 == "refuted":
-            st.violation("not-normalised:%s" % pkey, "the exported network's marginal of %s does not sum to 1" % q,
-                         {"program": text, "query": q, "values": {}})
+            vals2 = symsem.model_values(_, params) if _ is not None else {}
+            from vlib import diffcheck
+            for p_, v_ in diffcheck.default_values(params, groups).items():
+                vals2.setdefault(p_, v_)
+            key = (classify if cfg == 'task' else (lambda t, q_, v, d: 'documented-options:' + d))(text, q, vals2, "not-normalised:%s" % pkey)
+            st.violation(key, "the exported network's marginal of %s does not sum to 1" % q,
+                         {"program": text, "query": q, "values": dict((k, str(x)) for k, x in vals2.items()), "options": options,
+                          "kind": "not-normalised"})
 
 
 def replay_one(text, q, vals, options=None):
@@ -264,6 +272,25 @@ def replay_one(text, q, vals, options=None):
     f = float(val.numerator_as_long()) / float(val.denominator_as_long()) if z3.is_rational_value(val) else float(str(val.approx(12)).rstrip("?"))
     if abs(f - res[q]) > 1e-7:
         return "ProbLog %.9f, network marginal %.9f at %s" % (res[q], f, dict((k, str(v)) for k, v in vals.items()))
+    return None
+
+
+def replay_not_normalised(text, q, vals, options=None):
+    """Concrete: do the two values of q's marginal in the exported network sum to 1?"""
+    ntext = symsem.substitute_params(text, vals)
+    gp = LogicDAG.createFrom(PrologString(ntext, parser=DefaultPrologParser(ExtendedPrologFactory())),
+                             **(options or export_options()))
+    bn = formula_to_bn(gp)
+    if q not in bn.vars:
+        return None
+    try:
+        p1, p0 = ve_marginal(bn, q)
+    except MalformedNetwork as e:
+        return str(e)
+    tot = z3.simplify(p1 + p0)
+    f = float(tot.numerator_as_long()) / float(tot.denominator_as_long()) if z3.is_rational_value(tot) else float(str(tot.approx(12)).rstrip("?"))
+    if abs(f - 1.0) > 1e-9:
+        return "marginal of %s sums to %s" % (q, f)
     return None
 
 
@@ -357,4 +384,6 @@ def replay(obj):
     vals = dict((k, Fraction(v)) for k, v in (obj.get("values") or {}).items())
     if "query" not in obj:
         return bool(replay_export_raises(obj["program"], vals, obj.get("options")))
+    if obj.get("kind") == "not-normalised":
+        return bool(replay_not_normalised(obj["program"], obj["query"], vals, obj.get("options")))
     return bool(replay_one(obj["program"], obj["query"], vals, obj.get("options")))
